@@ -12,7 +12,9 @@ structure Vec.WF (v : Vec) : Prop where
   num_le : v.num ≤ v.max
   os_pos : 0 < v.objsize
   slot_size : ∀ (k : Nat) (e : Bytes), v.slots[k]? = some e → e.length = v.objsize
-  policy : v.options = 2 ∨ (v.options = 4 ∧ 1 ≤ v.initnum) ∨ v.options = 8
+  /-- whatever formula the growth block of addat selects for this vector's stored option word
+      and initnum, it asks for more than the current capacity -/
+  policy : ∀ m : Nat, m < growBy v.growKind m v.initnum
 
 theorem Vec.live_length (v : Vec) (hwf : v.WF) : v.live.length = v.num := by
   simp [Vec.live, hwf.len_eq]; exact Nat.min_eq_left hwf.num_le
@@ -21,9 +23,31 @@ theorem Vec.abs_length (v : Vec) (hwf : v.WF) : v.abs.s.length = v.num := Vec.li
 
 /-! ### construction, growth, resize -/
 
+/-- the constructor written out for the facts extracted from the CURRENT source: DOUBLE wins over
+    LINEAR wins over EXACT (also the default); exactly one policy bit is stored; THREADSAFE and
+    any other bit of the word play no role; initnum is prepared for the linear policy only -/
+theorem Vec.new_explicit (max objsize options : Nat) :
+    Vec.new max objsize options =
+      if objsize = 0 then none
+      else some { slots := List.replicate max (Vec.zeroSlot objsize), num := 0, max := max, objsize := objsize,
+                  options := if options &&& 2 ≠ 0 then 2 else if options &&& 4 ≠ 0 then 4 else 8,
+                  initnum := if ¬ (options &&& 2 ≠ 0) ∧ options &&& 4 ≠ 0 then (if max = 0 then 1 else max) else 0 } := by
+  unfold Vec.new Vec.ctorBranch
+  by_cases h0 : objsize = 0
+  · simp [h0]
+  · by_cases hd : options &&& 2 = 0 <;> by_cases hl : options &&& 4 = 0 <;>
+      simp [h0, hd, hl, Generated.ctorChain, Generated.ctorElse, Generated.ctorStoresRaw, List.find?]
+
+/-- the growth rule written out for the facts extracted from the CURRENT source -/
+theorem Vec.growKind_explicit (v : Vec) :
+    v.growKind = if v.options &&& 2 ≠ 0 then .double else if v.options &&& 4 ≠ 0 then .linear else .exact := by
+  unfold Vec.growKind
+  by_cases hd : v.options &&& 2 = 0 <;> by_cases hl : v.options &&& 4 = 0 <;>
+    simp [hd, hl, Generated.growChain, Generated.growDefault, List.find?]
+
 theorem Vec.new_WF (max objsize options : Nat) (v : Vec) (h : Vec.new max objsize options = some v) :
     v.WF ∧ v.live = [] ∧ v.objsize = objsize ∧ v.max = max := by
-  unfold Vec.new at h
+  rw [Vec.new_explicit] at h
   split at h
   · simp at h
   · rename_i hos
@@ -35,12 +59,14 @@ theorem Vec.new_WF (max objsize options : Nat) (v : Vec) (h : Vec.new max objsiz
       split at he
       · simp at he; simp [← he, Vec.zeroSlot]
       · simp at he
-    · simp only [QVECTOR_RESIZE_DOUBLE, QVECTOR_RESIZE_LINEAR, QVECTOR_RESIZE_EXACT]
+    · -- the constructor's resolution of the option word and addat's growth rule agree
+      intro m
+      rw [Vec.growKind_explicit]
       by_cases hd : options &&& 2 ≠ 0
-      · left; simp [hd]
+      · simp [hd, growBy]; omega
       · by_cases hl : options &&& 4 ≠ 0
-        · right; left; simp [hd, hl]; split <;> omega
-        · right; right; simp [hd, hl]
+        · simp [hd, hl, growBy]; split <;> omega
+        · simp [hd, hl, growBy]
 
 theorem Vec.resize_spec (v : Vec) (hwf : v.WF) (m : Nat) :
     (v.resize m).1 = true ∧ (v.resize m).2.live = v.live.take m ∧ (v.resize m).2.WF ∧
@@ -71,18 +97,15 @@ theorem Vec.resize_spec (v : Vec) (hwf : v.WF) (m : Nat) :
           · simp at he
       · simp at he
 
-theorem Vec.grownMax_gt (v : Vec) (hwf : v.WF) : v.max < v.grownMax := by
-  unfold Vec.grownMax
-  simp only [QVECTOR_RESIZE_DOUBLE, QVECTOR_RESIZE_LINEAR]
-  rcases hwf.policy with h | ⟨h, hi⟩ | h <;> rw [h] <;> simp <;> omega
+theorem Vec.grownMax_gt (v : Vec) (hwf : v.WF) : v.max < v.grownMax := hwf.policy v.max
 
 /-- capacity asked for by a forced growth, per policy -/
 theorem Vec.grownMax_eq (v : Vec) :
     (v.options = 2 → v.grownMax = (v.max + 1) * 2) ∧ (v.options = 4 → v.grownMax = v.max + v.initnum) ∧
     (v.options = 8 → v.grownMax = v.max + 1) := by
   unfold Vec.grownMax
-  simp only [QVECTOR_RESIZE_DOUBLE, QVECTOR_RESIZE_LINEAR]
-  refine ⟨fun h => by rw [h]; simp, fun h => by rw [h]; simp, fun h => by rw [h]; simp⟩
+  rw [Vec.growKind_explicit]
+  refine ⟨fun h => by rw [h]; simp [growBy], fun h => by rw [h]; simp [growBy], fun h => by rw [h]; simp [growBy]⟩
 
 /-! ### the shift-up loop of qvector_addat -/
 
@@ -284,7 +307,7 @@ theorem Vec.addAt_refines (v : Vec) (hwf : v.WF) (hn : v.num < 2147483648) (inde
           · have c : ¬ (j - 1 < v.grown.num) := by omega
             simp [c1, c2, c3, c]
     · -- invariant
-      refine ⟨by simp [l1, g1.len_eq], by simp; omega, by simpa using g1.os_pos, ?_, by simpa using g1.policy⟩
+      refine ⟨by simp [l1, g1.len_eq], by simp; omega, by simpa using g1.os_pos, ?_, g1.policy⟩
       intro j e he
       simp only [List.getElem?_set, l1] at he
       split at he
